@@ -9,6 +9,7 @@ use std::sync::{Arc, Mutex};
 mod fifo;
 mod revoke_dup;
 mod revoke_pairs;
+mod entry;
 mod dead_target;
 mod runner;
 mod once;
@@ -24,6 +25,7 @@ fn main()
         "fifo" => fifo::run(&args[1..]),
         "revoke_dup" => revoke_dup::run(&args[1..]),
         "revoke_pairs" => revoke_pairs::run(&args[1..]),
+        "entry" => entry::run(&args[1..]),
         "dead_target" => dead_target::run(&args[1..]),
         "runner" => runner::run(&args[1..]),
         "once" => once::run(&args[1..]),
